@@ -47,6 +47,12 @@ def run(ctx):
                    ("O9", "every pinned (path, opcode, num_arg_bytes, short) triple is still present and unchanged")]:
         ctx.rule(r, txt)
     ctx.floor("O1", "operations in asm.yml", len(spec), 62)
+    # O10: the second byte-level reader of the same encoding (effects::bytes_contains_any) agrees with the codec on which
+    # opcodes carry immediates and how many bytes they span (C15 R3, re-evaluated here: sibling decoders must agree)
+    from . import C15
+    from .C19 import _Only
+    ctx.rule("O10", "the byte-level effects scanner skips exactly num_arg_bytes after each opcode that carries an immediate (C15 R3)")
+    C15.run(_Only(ctx, "R3", "O10"))
     groups = {}
     for op in spec:
         if len(op["path"]) != 3 or op["path"][0] != "Op":
